@@ -155,7 +155,14 @@ impl Property for C08 {
             }
             let mut source = ScriptSource::new(sink.data.clone(), rscript.clone(), ROut::Deliver(usize::MAX), budget);
             st.eval(1);
-            let (recvs, rstalled) = match lib(|| sh.io_async_recv(&mut source, max_msg_len, msgs.values.len() + 3, 0, max_polls)) {
+            let retain_mask = if routes[4] % 3 == 0 { routes[3] as u64 } else { 0 };
+            crate::io_glue::RETAIN_MASK.with(|m| m.set(retain_mask));
+            let r = lib(|| sh.io_async_recv(&mut source, max_msg_len, msgs.values.len() + 3, 0, max_polls + 2 * msgs.values.len()));
+            crate::io_glue::RETAIN_MASK.with(|m| m.set(0));
+            if retain_mask & ((1u64 << msgs.values.len().min(63)) - 1) != 0 {
+                st.label("a guard was retain()ed and the message received again");
+            }
+            let (recvs, rstalled) = match r {
                 Ok(x) => (x.events, x.stalled),
                 Err(p) => crate::vfail!("panic", "{}: async receiver panicked: {} {}", name, p, ctx(String::new())),
             };
@@ -207,7 +214,10 @@ impl Property for C08 {
             let max_polls = 8 * (total + 1) + pendings * 2 + schedule.len() + 64;
             st.eval(1);
             msgs.install_post_ops();
-            let rep = lib(|| sh.io_async_joined(&msgs.initial, &routes, max_msg_len, cap, wscript.clone(), rscript.clone(), fscript.clone(), &schedule, max_polls));
+            let retain_mask = if routes[4] % 3 == 0 { routes[3] as u64 } else { 0 };
+            crate::io_glue::RETAIN_MASK.with(|m| m.set(retain_mask));
+            let rep = lib(|| sh.io_async_joined(&msgs.initial, &routes, max_msg_len, cap, wscript.clone(), rscript.clone(), fscript.clone(), &schedule, max_polls + 2 * msgs.values.len()));
+            crate::io_glue::RETAIN_MASK.with(|m| m.set(0));
             Msgs::clear_post_ops();
             let rep = match rep {
                 Ok(r) => r,
